@@ -92,15 +92,22 @@ func (loc *Location) Control() *Control {
 	// ToDo: Consider sync.atomic.LoadPointer() or sync.atomic.Value.
 	loc.RLock()
 	p := loc.control
-	if p == nil {
-		// Watch out: allocation that perhaps we don't want.
-		p = SystemParameters.DefaultControl
-		if p == nil {
-			p = DefaultControl()
-		}
-		loc.control = p
-	}
 	loc.RUnlock()
+	if p == nil {
+		// The default is installed under the write lock (it
+		// used to be stored while holding only the read lock).
+		loc.Lock()
+		p = loc.control
+		if p == nil {
+			// Watch out: allocation that perhaps we don't want.
+			p = SystemParameters.DefaultControl
+			if p == nil {
+				p = DefaultControl()
+			}
+			loc.control = p
+		}
+		loc.Unlock()
+	}
 	return p
 }
 
